@@ -19,7 +19,7 @@ package generator
 //@ reveal builder.GenCtx(gen builder.Generator, ctx *builder.MethodContext) = dynIs[*generator](gen) && unboxed[*generator](gen) != nil && CtxLinked(unboxed[*generator](gen), ctx)
 
 //@ func typeMismatch
-//@   props C03 C11
+//@   props C03 C11 C13
 //@   requires@C13 source != nil && target != nil
 //@   ensures result != nil
 //@   ensures strings.Contains(result.Cause, "TypeMismatch: Cannot convert ")
@@ -40,10 +40,10 @@ package generator
 //@     && (dynIs[*builder.Enum](rule) ==> builder.MayMatchEnum(ctx, s, t) && !builder.MatchesSkipCopy(ctx, s, t))
 
 //@ func generator.buildNoLookup
-//@   props C03 C11 C04
+//@   props C03 C11 C04 C13
 //@   propagates
 //@   requires@C13 GenCall(g, ctx, sourceID, source, target)
-//@   ensures@C13 builder.GenInv(g) && builder.GenCtx(g, ctx)
+//@   ensures@C13 builder.GenInv(g)
 //@   ensures err == nil ==> result1 != nil && result1.Code != nil
 //@   ensures old(builder.NoRule(ctx, source, target)) ==> err != nil
 //@   ensures old(builder.NoRule(ctx, source, target) && source.Pointer && !target.Pointer && !(source.Struct && target.Struct))
@@ -52,17 +52,17 @@ package generator
 //@   at call typeMismatch#1 assert !builder.AnyPureRule(ctx, source, target)
 
 //@ func generator.assignNoLookup
-//@   props C03 C11 C04
+//@   props C03 C11 C04 C13
 //@   propagates
 //@   requires@C13 GenCall(g, ctx, sourceID, source, target) && builder.AssignOK(assignTo)
-//@   ensures@C13 builder.GenInv(g) && builder.GenCtx(g, ctx)
+//@   ensures@C13 builder.GenInv(g)
 //@   ensures old(builder.NoRule(ctx, source, target)) ==> err != nil
 //@   at call rule.Assign#1 assert RuleOrderOK(rule, ctx, source, target)
 //@   at call typeMismatch#1 assert !builder.AnyPureRule(ctx, source, target)
 
 //@ func generator.getOverlappingStructDefinition
-//@   props C05
-//@   requires@C13 builder.GenInv(g) && builder.GenCtx(g, ctx) && builder.CtxOK(ctx) && source != nil && target != nil
+//@   props C05 C13
+//@   requires@C13 builder.GenInv(g) && builder.CtxOK(ctx) && source != nil && target != nil
 //@   assigns nothing
 //@   ensures !(source.Struct && target.Struct) ==> result == nil
 
@@ -77,7 +77,7 @@ package generator
 
 // ---- C07: wrapping mode selection ----
 //@ func generator.wrap
-//@   props C07
+//@   props C07 C13
 //@   pure
 //@   requires@C13 builder.CtxOK(ctx) && (forall j int :: 0 <= j && j < len(errPath) ==> builder.PathElem(errPath[j]))
 //@   ensures ctx.Conf.WrapErrorsUsing != "" ==> result == errPath.WrapErrorsUsing(ctx.Conf.WrapErrorsUsing, errStmt)
@@ -88,25 +88,25 @@ package generator
 // builder.GenInv / builder.GenCtx are the abstract forms of GenOK / CtxLinked (revealed above); every
 // generator method that can be reached from a builder preserves them.
 //@ pred GenCall(g *generator, ctx *builder.MethodContext, sourceID *xtype.JenID, source *xtype.Type, target *xtype.Type) bool =
-//@     builder.GenInv(g) && builder.GenCtx(g, ctx) && builder.CallOK(ctx, sourceID, source, target)
+//@     builder.GenInv(g) && builder.CallOK(ctx, sourceID, source, target)
 //@ pred CtxLinkedVal(g generator, ctx *builder.MethodContext) bool = ctx != nil && method.ValidID(g.lookup, ctx.IndexID)
 //@     && (forall j int :: 0 <= j && j < len(g.lookup.ByID(ctx.IndexID).OriginPath) ==> method.ValidID(g.lookup, g.lookup.ByID(ctx.IndexID).OriginPath[j]))
 
 //@ func generator.Build
-//@   props C03 C06
+//@   props C03 C06 C13
 //@   propagates
 //@   requires@C13 GenCall(g, ctx, sourceID, source, target)
-//@   ensures@C13 builder.GenInv(g) && builder.GenCtx(g, ctx)
+//@   ensures@C13 builder.GenInv(g)
 //@   ensures err == nil ==> result1 != nil && result1.Code != nil
 //@   at call g.shouldCreateSubMethod#1 assert !has(g.extend.Exact, xtype.SignatureOf(source, target)) && !has(g.lookup.Exact, xtype.SignatureOf(source, target))
 //@   at call g.buildNoLookup#* assert !has(g.extend.Exact, xtype.SignatureOf(source, target)) && !has(g.lookup.Exact, xtype.SignatureOf(source, target))
 //@   at call g.createSubMethod#* assert !has(g.extend.Exact, xtype.SignatureOf(source, target)) && !has(g.lookup.Exact, xtype.SignatureOf(source, target))
 
 //@ func generator.Assign
-//@   props C03 C06
+//@   props C03 C06 C13
 //@   propagates
 //@   requires@C13 GenCall(g, ctx, sourceID, source, target) && builder.AssignOK(assignTo)
-//@   ensures@C13 builder.GenInv(g) && builder.GenCtx(g, ctx)
+//@   ensures@C13 builder.GenInv(g)
 //@   at call g.shouldCreateSubMethod#1 assert !has(g.extend.Exact, xtype.SignatureOf(source, target)) && !has(g.lookup.Exact, xtype.SignatureOf(source, target))
 //@   at call g.assignNoLookup#* assert !has(g.extend.Exact, xtype.SignatureOf(source, target)) && !has(g.lookup.Exact, xtype.SignatureOf(source, target))
 //@   at call g.createSubMethod#* assert !has(g.extend.Exact, xtype.SignatureOf(source, target)) && !has(g.lookup.Exact, xtype.SignatureOf(source, target))
@@ -114,10 +114,10 @@ package generator
 // extend is consulted before the declared/generated methods; a hit is used (or is an error), only
 // "not registered at all" falls through to the automatic rules
 //@ func generator.callExisting
-//@   props C06 C03
+//@   props C06 C03 C13
 //@   propagates
-//@   requires@C13 GenVal(g) && CtxLinkedVal(g, ctx) && builder.CallOK(ctx, sourceID, source, target)
-//@   ensures@C13 GenVal(g) && CtxLinkedVal(g, ctx)
+//@   requires@C13 GenVal(g) && builder.CallOK(ctx, sourceID, source, target)
+//@   ensures@C13 GenVal(g)
 //@   ensures has(g.extend.Exact, xtype.SignatureOf(source, target)) || has(g.lookup.Exact, xtype.SignatureOf(source, target)) ==> result1 != nil || err != nil
 //@   ensures err == nil && result1 == nil ==> result0 == nil
 //@   ensures err == nil && result1 != nil ==> result1.Code != nil
@@ -131,8 +131,8 @@ package generator
 //@   at@C07 call xtype.VariableID#1 assert ok && len(stmt) == 2
 //@           && stmt[0] == jen.Code(jen.List(jen.Id(name), jen.Id("err")).Op(":=").Add(qual.Call(params...)))
 //@           && stmt[1] == jen.Code(jen.If(jen.Id("err").Op("!=").Nil()).Block(ret))
-//@   requires@C13 builder.GenInv(g) && builder.GenCtx(g, ctx) && builder.MethodOK(ctx) && ctx.Namer != nil && definition != nil && target != nil
-//@   ensures@C13 builder.GenInv(g) && builder.GenCtx(g, ctx)
+//@   requires@C13 builder.GenInv(g) && builder.MethodOK(ctx) && ctx.Namer != nil && definition != nil && target != nil
+//@   ensures@C13 builder.GenInv(g)
 //@   ensures err == nil ==> result1 != nil && result1.Code != nil
 
 // the emitted return statement: the target variable first (unless update), wrap(err) last; goverter refuses
@@ -142,18 +142,18 @@ package generator
 //@   ensures !result1 ==> !old(ctx.Conf.ReturnError) && result0 == nil
 //@   at call jen.Return#* assert arg0[len(arg0)-1] == jen.Code(g.wrap(ctx, errPath, id)) && len(arg0) == ite(current.UpdateTarget, 1, 2)
 //@           && (!current.UpdateTarget ==> arg0[0] == jen.Code(ctx.TargetVar))
-//@   requires@C13 builder.GenInv(g) && builder.GenCtx(g, ctx) && builder.MethodOK(ctx) && id != nil
-//@   ensures@C13 builder.GenInv(g) && builder.GenCtx(g, ctx)
+//@   requires@C13 builder.GenInv(g) && builder.MethodOK(ctx) && id != nil
+//@   ensures@C13 builder.GenInv(g)
 //@   ensures result1 ==> result0 != nil
 
 // C13 (progress of the dirty fix-point): a method is only marked dirty for a type seen before if a sub
 // method is then created for it
 //@ func generator.shouldCreateSubMethod
-//@   props C06 C13
+//@   props C06
 //@   ensures@C13 old(ctx.HasSeen(source)) ==> result
 //@   ensures@C13 !old(ctx.HasSeen(source)) ==> g.lookup.ByID(ctx.IndexID).Dirty == old(g.lookup.ByID(ctx.IndexID).Dirty)
-//@   requires@C13 builder.GenInv(g) && builder.GenCtx(g, ctx) && builder.MethodOK(ctx) && source != nil && target != nil
-//@   ensures@C13 builder.GenInv(g) && builder.GenCtx(g, ctx)
+//@   requires@C13 builder.GenInv(g) && builder.MethodOK(ctx) && source != nil && target != nil
+//@   ensures@C13 builder.GenInv(g)
 
 // C12/C04: generated sub methods get the CONVERTER's settings, not those of the calling method
 //@ func generator.createSubMethod
@@ -163,7 +163,7 @@ package generator
 //@   at@C04 call g.lookup.Register#1 assert genMethod.Method.Common.SkipCopySameType == g.conf.Common.SkipCopySameType
 //@   requires@C13 GenCall(g, ctx, sourceID, source, target)
 //@   requires !has(g.lookup.Exact, xtype.SignatureOf(source, target))
-//@   ensures@C13 builder.GenInv(g) && builder.GenCtx(g, ctx)
+//@   ensures@C13 builder.GenInv(g)
 //@   ensures err == nil ==> result1 != nil && result1.Code != nil
 
 //@ func generator.buildMethod
@@ -175,7 +175,7 @@ package generator
 //@   ensures@C13 builder.GenInv(g)
 
 //@ func generator.qualMethod
-//@   props C01 C18
+//@   props C01 C18 C13
 //@   requires@C13 g != nil && g.conf != nil && m != nil
 //@   assigns nothing
 //@   ensures result != nil
@@ -190,12 +190,13 @@ package generator
 // C07: a delegate that can fail needs a method that returns an error
 //@ func generator.delegateMethod
 //@   props C07 C06
+//@   assigns nothing
 //@   ensures delegateTo.ReturnError && !g.lookup.ByID(ctx.IndexID).ReturnError ==> err != nil && result == nil
 //@   ensures err == nil ==> result != nil
 
 // ---- C15/C16: output files ----
 //@ func getOutputDir
-//@   props C15
+//@   props C15 C13
 //@   pure
 //@   requires@C13 c != nil
 //@   ensures result == ite(filepath.IsAbs(c.OutputFile), c.OutputFile, filepath.Join(filepath.Dir(c.FileName), c.OutputFile))
@@ -217,3 +218,11 @@ package generator
 //@ func Generate
 //@   props C15 C17 C03
 //@   propagates
+
+//@ func generator.convertTo
+//@   props C10 C03
+//@   propagates
+//@   requires@C13 builder.GenInv(g) && builder.CallOK(ctx, sourceID, source, target) && builder.AssignOK(assignTo)
+//@   ensures@C13 builder.GenInv(g)
+//@   ensures !old(target.Pointer && target.PointerInner.Struct) ==> err != nil
+//@   ensures !old(source.Struct) && !old(source.Pointer && source.PointerInner.Struct) ==> err != nil
